@@ -43,6 +43,74 @@ def toy(ctr, plain):
     return ctr.to_bytes(16, "little") + bytes(plain)
 
 
+# ---------------------------------------------------------------- the GATT link (round 9)
+# write_gatt_char / read_gatt_char of a real backend are suspension points: the bytes reach the characteristic some loop
+# iterations after the call and the link does not order calls that are in flight together (Model/PduLink.v: a write is
+# (lat, w); Props/C17.v ble_fragments_arrive_in_order).  The fake radios below deliver a write after `link_latency`
+# loop iterations and record the ARRIVAL order - that is what the accessory reassembles - next to the issue order, the
+# number of calls in flight together and the `response` argument.
+LINKS = ["sync", "const", "bylen", "firstslow", "falling", "random"]
+CHAR_PROPS = [["read", "write"], ["read", "write", "write-without-response"], ["write-without-response", "read"]]
+
+
+def link_latency(profile, k, n, budget, salt=0):
+    if profile == "sync":
+        return 0                                  # bytes recorded at call time (the only behaviour before round 9)
+    if profile == "const":
+        return 2
+    if profile == "bylen":
+        return 1 + (4 * n) // max(1, budget)      # time on air grows with the packet
+    if profile == "firstslow":
+        return 5 if k == 0 else 1                 # connection-event wait before the first packet
+    if profile == "falling":
+        return max(0, 6 - k)
+    return ((salt + 1) * 2654435761 + k * 40503 >> 5) % 6
+
+
+class LinkLog:
+    def __init__(self, profile, budget, salt=0):
+        self.profile, self.budget, self.salt = profile, budget, salt
+        self.reset()
+
+    def reset(self):
+        self.issued, self.order, self.flags, self.inflight, self.maxfl, self.read_while_writing = [], [], [], 0, 0, False
+
+    async def carry(self, data, response):
+        """Returns when the bytes have reached the characteristic."""
+        k = len(self.issued)
+        self.issued.append(data)
+        self.flags.append(response)
+        self.inflight += 1
+        self.maxfl = max(self.maxfl, self.inflight)
+        for _ in range(link_latency(self.profile, k, len(data), self.budget, self.salt)):
+            await asyncio.sleep(0)
+        self.inflight -= 1
+        self.order.append(k)
+
+    async def fetch(self):
+        if self.inflight:
+            self.read_while_writing = True
+        for _ in range(0 if self.profile == "sync" else 1):
+            await asyncio.sleep(0)
+
+    def info(self):
+        return dict(link=self.profile, order=list(self.order), max_in_flight=self.maxfl, response_flags=list(self.flags),
+                    read_while_writing=self.read_while_writing, issued_sizes=[len(x) for x in self.issued])
+
+
+def oracle_link(prefix, lk, props, sizes):
+    """Independent of the model: the characteristic must receive the fragments in the order the controller produced them
+    (fragment 0 carries the header, the nonce counter runs with the fragment index), whatever the link's latencies."""
+    bad = []
+    if lk["order"] != sorted(lk["order"]) or len(lk["order"]) != len(lk["issued_sizes"]) or lk["read_while_writing"]:
+        bad.append((prefix + ":fragments-out-of-order", f"GATT link '{lk['link']}' (characteristic properties {props}): the controller had "
+                    f"{lk['max_in_flight']} write_gatt_char calls in flight together; the {len(lk['issued_sizes'])} fragments (sizes {lk['issued_sizes'][:8]}) "
+                    f"reach the characteristic in the order {lk['order'][:12]}" + (" and the response was read before all of them had arrived" if lk["read_while_writing"] or len(lk["order"]) != len(lk["issued_sizes"]) else "")
+                    + ": the accessory sees a continuation before the header fragment / ciphertexts out of nonce order"))
+    return bad
+
+
+
 # ---------------------------------------------------------------- implementation side: BLE
 def exc_token(e):
     from aiohomekit.exceptions import EncryptionError
@@ -116,6 +184,7 @@ async def impl_ble(case):
     aw, ar = (ref.Aead(KEY_W), ref.Aead(KEY_R)) if enc else (None, None)
     st = dict(writes=[], script=None, reads=0, overheads=[], plains=None, tid=None, total=0)
     budget = case["fs"] + (16 if enc else 0)
+    link = LinkLog(case.get("link", "sync"), budget, case["fs"] + len(case["body"]))
 
     def accessory_plains():
         out = []
@@ -132,9 +201,12 @@ async def impl_ble(case):
             return budget - overhead
 
         async def write_gatt_char(self, handle, data, response=None):
-            st["writes"].append(bytes(data))
+            data = bytes(data)
+            await link.carry(data, response)
+            st["writes"].append(data)                 # arrival order: what the accessory's characteristic sees
 
         async def read_gatt_char(self, handle):
+            await link.fetch()
             if st["script"] is None:
                 st["plains"] = accessory_plains()
                 p0 = st["plains"][0] if st["plains"] else None
@@ -160,7 +232,7 @@ async def impl_ble(case):
             return bytearray(st["script"].pop(0))
 
     class Handle:
-        properties = ["read", "write"]
+        properties = list(case.get("props", CHAR_PROPS[0]))
 
     ek = dk = None
     if enc:
@@ -184,7 +256,7 @@ async def impl_ble(case):
         wctr = case["c0"] + len(wr)
     return dict(writes=wr, wctr=wctr, tid=tid, read=read, plains=st["plains"], sizes=[len(w) for w in st["writes"]],
                 budget=budget, model_frags=st.get("model_frags"), overheads=st["overheads"], nreads=st["reads"],
-                nscript=st["total"])
+                nscript=st["total"], link=link.info(), props=Handle.properties)
 
 
 # ---------------------------------------------------------------- property oracle: BLE
@@ -197,6 +269,7 @@ def oracle_ble(case, out):
         if big or not out["sizes"]:
             bad.append(("ble-write:fragment-exceeds-size", f"fs={case['fs']} len={len(case['body'])}: write sizes {out['sizes'][:6]} "
                         f"exceed the negotiated {out['budget']}"))
+        bad.extend(oracle_link("ble-write", out["link"], out["props"], out["sizes"]))
         if case["mode"] == "c" and out["sizes"] and out["wctr"] != case["c0"] + len(out["sizes"]):
             bad.append(("ble-write:counter-desync", f"fs={case['fs']} len={len(case['body'])}: {len(out['sizes'])} fragments were sealed from nonce "
                         f"{case['c0']} but the session's encryption counter is {out['wctr']} afterwards (the accessory expects "
@@ -322,8 +395,10 @@ def gen_ble(tier, r):
     def add(fs, ln, mode, resp, expect, stream, **kw):
         c0 = r.choice([0, 0, 1, 7, 255, 256, 65535, (1 << 32) - 1, (1 << 32)]) if mode == "c" else 0
         d0 = r.choice([0, 0, 3, 255, 65536, (1 << 32) + 5]) if mode == "c" else 0
+        k = len(cases)
         cases.append(dict(fs=fs, body=body_of(ln, fs), op=BLE_OPS[(fs + ln) % len(BLE_OPS)], iid=IIDS[(fs * 3 + ln) % len(IIDS)],
-                          mode=mode, c0=c0, d0=d0, resp=resp, expect=expect, stream=stream, **kw))
+                          mode=mode, c0=c0, d0=d0, resp=resp, expect=expect, stream=stream,
+                          link=LINKS[(k + k // 7) % len(LINKS)], props=CHAR_PROPS[(k // 2 + k // 11) % len(CHAR_PROPS)], **kw))
 
     # (1) exhaustive grid fs 8..64 x len 0..200, plain and encrypted
     for fs in range(8, 65):
@@ -431,10 +506,10 @@ HIST_MWWR = [None, None, 20, 250, 0, 120]            # backend's max_write_witho
 class HistChar:
     """Duck-typed BleakGATTCharacteristic."""
 
-    def __init__(self, handle, mwwr):
+    def __init__(self, handle, mwwr, props=("read", "write")):
         self.handle = handle
         self.uuid = "00000000-0000-1000-8000-0026bb765291"
-        self.properties = ["read", "write"]
+        self.properties = list(props)
         self.max_write_without_response_size = mwwr
         self.descriptors = []
 
@@ -454,12 +529,14 @@ def gen_ble_hist(tier, r):
                 continue
             k = len(cases)
             cases.append(dict(steps=list(h), mtu=HIST_MTUS[k % 6], mwwr=HIST_MWWR[(k // 6 + k) % 6], stream="hist",
-                              fault={2: "stale", 4: "badstatus"}.get(k % 6), k0=[0, 0, 7, 255, 65535, 1 << 32][k % 6]))
+                              fault={2: "stale", 4: "badstatus"}.get(k % 6), k0=[0, 0, 7, 255, 65535, 1 << 32][k % 6],
+                              link=LINKS[(k + k // 5) % len(LINKS)], props0=(k // 3) % 3))
     for _ in range(150 if tier == "quick" else 5000):
         n = r.randrange(4, 9)
         cases.append(dict(steps=[(r.randrange(3), r.random() < 0.6, r.choice([0, 1, 60, 74, 75, 80, 90, 91, 97, 300, 1000])) for _ in range(n)],
                           mtu=r.choice(HIST_MTUS + [r.randrange(100, 520)]), mwwr=r.choice(HIST_MWWR), stream="hist-random",
-                          fault=r.choice([None, None, "stale", "badstatus"]), k0=r.choice([0, 3, 255, 65536, (1 << 32) - 2])))
+                          fault=r.choice([None, None, "stale", "badstatus"]), k0=r.choice([0, 3, 255, 65536, (1 << 32) - 2]),
+                          link=LINKS[len(cases) % len(LINKS)], props0=len(cases) % 3))
     return cases
 
 
@@ -472,12 +549,16 @@ async def impl_ble_hist(case, serial):
     from aiohomekit.pdu import OpCode
 
     st = dict(writes=[], script=None, reads=0)
+    link = LinkLog(case.get("link", "sync"), 100, serial)
 
     class Radio(AIOHomeKitBleakClient):
         async def write_gatt_char(self, char, data, response=None):
-            st["writes"].append(bytes(data))
+            data = bytes(data)
+            await link.carry(data, response)
+            st["writes"].append(data)                 # arrival order
 
         async def read_gatt_char(self, char):
+            await link.fetch()
             if st["script"] is None:
                 st["script"] = st["respond"]()
             if not st["script"]:
@@ -489,7 +570,8 @@ async def impl_ble_hist(case, serial):
     if case["mtu"] is not None:
         client.__dict__["mtu_size"] = case["mtu"]        # the link's negotiated MTU (cached_property slot)
     mtu = client.mtu_size
-    chars = [HistChar(0x21 + 4 * i, case["mwwr"]) for i in range(3)]
+    link.budget = max(mtu - 3, case["mwwr"] or 0)
+    chars = [HistChar(0x21 + 4 * i, case["mwwr"], CHAR_PROPS[(i + case.get("props0", 0)) % len(CHAR_PROPS)]) for i in range(3)]
     ek = dk = aw = ar = None
     acc = dict(recv=0, send=0)                              # the accessory's nonce counters for the session
     vctr = dict(e=0, d=0)                                   # plain link: number of writes / reads (what the model counts)
@@ -509,6 +591,7 @@ async def impl_ble_hist(case, serial):
         d0 = dk.counter if enc else vctr["d"]
         fault = case["fault"] if pos == nsteps - 1 else None
         st.update(writes=[], script=None, reads=0)
+        link.reset()
         body = body_of(ln, pos + ch)
         iid = IIDS[(pos + ln) % len(IIDS)]
         op = BLE_OPS[(pos + ch) % len(BLE_OPS)]
@@ -569,7 +652,8 @@ async def impl_ble_hist(case, serial):
             e1, d1 = vctr["e"], vctr["d"]
         out.append(dict(ch=ch, enc=enc, ln=ln, op=op, iid=iid, body=body, c0=c0, d0=d0, e1=e1, d1=d1, tid=tid, read=read, fault=fault,
                         sizes=[len(w) for w in writes], plains=acc_plains, ctl_plains=plains, impl_w=f"ok {e1 if enc else c0 + len(writes)} {frs_str(wr)}",
-                        want=info["want"], resp_frs=info["frs"], acc=dict(acc), unread=len(st["script"] or [])))
+                        want=info["want"], resp_frs=info["frs"], acc=dict(acc), unread=len(st["script"] or []),
+                        link=link.info(), props=chars[ch].properties))
         prev_tid = tid
     return mtu, out
 
@@ -582,6 +666,7 @@ def oracle_ble_hist(case, mtu, o):
     (3) an answer to another transaction id, or with an undefined status byte, raises ValueError."""
     bad = []
     budget = max(mtu - 3, case["mwwr"] or 0)
+    bad.extend(oracle_link("ble-session", o["link"], o["props"], o["sizes"]))
     if any(sz > budget for sz in o["sizes"]) or not o["sizes"]:
         bad.append(("ble-session:write-exceeds-negotiated", f"GATT write sizes {o['sizes'][:6]} exceed the negotiated ATT payload {budget} "
                     f"(mtu {mtu}, max_write_without_response {case['mwwr']}, {'secure session' if o['enc'] else 'plain'})"))
@@ -1629,6 +1714,10 @@ def _run(ctx, tier, seed):
                 impl_w = f"ok {o['wctr']} {frs_str(o['writes'])}"
             desc = dict(stream=c["stream"], fs=c["fs"], body_len=len(c["body"]), body=hx(c["body"]) if len(c["body"]) <= 64 else f"body_of({len(c['body'])},{c['fs']})",
                         op=c["op"], iid=c["iid"], mode=c["mode"], c0=c["c0"], d0=c["d0"], tid=o["tid"],
+                        gatt_link=dict(latency_profile=c["link"], latencies=[link_latency(c["link"], k, n, o["budget"], c["fs"] + len(c["body"]))
+                                                                             for k, n in enumerate(o["link"]["issued_sizes"][:12])],
+                                       arrival_order=o["link"]["order"][:12], max_in_flight=o["link"]["max_in_flight"]),
+                        char_properties=c["props"],
                         resp=dict((k, (hx(v) if isinstance(v, (bytes, bytearray)) else v)) for k, v in c["resp"].items()
                                   if k != "body" or len(v) <= 64))
             orc = oracle_ble(c, o)
@@ -1653,7 +1742,11 @@ def _run(ctx, tier, seed):
                                  resp_cut=c["resp"]["lens"][:8], faults=faults, impl_read=o["read"][:60]) if i % 9001 == 17 else None,
                      ble_stream=c["stream"], ble_mode=c["mode"], ble_fs=c["fs"] if c["fs"] in REAL_FS else ("8..64" if 8 <= c["fs"] <= 64 else "other"),
                      ble_nfrags=min(len(o["writes"]), 12) if len(o["writes"]) < 12 else "12+", ble_read=" ".join(o["read"].split(" ")[:2]) if not o["read"].startswith("ok") else "ok",
-                     ble_fault=faults, ble_resp_frags=len(c["resp"]["lens"]))
+                     ble_fault=faults, ble_resp_frags=len(c["resp"]["lens"]),
+                     ble_link=c["link"], ble_char_props="+".join(c["props"]), ble_max_in_flight=o["link"]["max_in_flight"],
+                     ble_response_flag=",".join(sorted({str(f) for f in o["link"]["response_flags"]})) or "none",
+                     ble_link_x_wwr_x_multi=f"{c['link']}/{'wwr' if 'write-without-response' in c['props'] else 'ack'}/{c['mode']}/"
+                                            f"{'multi' if len(o['writes']) > 1 else 'single'}")
 
     # ---- ble histories on one real client object
     hist_cases = gen_ble_hist(tier, rng(seed, "c17hist"))
@@ -1701,6 +1794,8 @@ def _run(ctx, tier, seed):
                 m = hm[j - 1]
                 desc = dict(stream=c["stream"], mtu=mtu, max_write_without_response=c["mwwr"], failing_step=pos, fault_on_last_step=c["fault"],
                             session_start_counters=(c["k0"], c["k0"] + 5), tid=o["tid"],
+                            gatt_link=dict(latency_profile=c["link"], arrival_order=o["link"]["order"][:12], max_in_flight=o["link"]["max_in_flight"]),
+                            char_properties=o["props"],
                             history=[dict(char=ch, session="encrypted" if e else "plain", body_len=ln) for ch, e, ln in c["steps"][:pos + 1]],
                             accessory="reference reassembler + ref.demo_answer (status (op+iid+tid)%7, body reversed, iid%5 + (1+tid%7)-byte pieces)")
                 orc = oracle_ble_hist(c, mtu, o)
@@ -1720,7 +1815,10 @@ def _run(ctx, tier, seed):
                          hist_len=len(c["steps"]), hist_mtu=mtu, hist_mwwr=c["mwwr"], hist_step_session="enc" if o["enc"] else "plain",
                          hist_enc_after_plain_same_char=bool(o["enc"] and prev_plain_same_char), hist_fault=o["fault"] or "none",
                          hist_resp_frags=min(len(o["resp_frs"] or []), 20) if len(o["resp_frs"] or []) < 20 else "20+",
-                         hist_read=o["read"] if not o["read"].startswith("ok") else "ok", hist_k0=c["k0"])
+                         hist_read=o["read"] if not o["read"].startswith("ok") else "ok", hist_k0=c["k0"],
+                         hist_link_x_wwr_x_multi=f"{c['link']}/{'wwr' if 'write-without-response' in o['props'] else 'ack'}/"
+                                                 f"{'enc' if o['enc'] else 'plain'}/{'multi' if len(o['sizes']) > 1 else 'single'}",
+                         hist_max_in_flight=o["link"]["max_in_flight"])
             # the closed-loop model (ble_loop with demo_responder) against whole fault-free segments of the real session
             for seg, ans in loop_by_case.get(ci, []):
                 last = outs_[seg[-1]]
